@@ -174,9 +174,10 @@ def model_lines(ev, timestep=0.25, integrator="euler", disable=(), enable=(), ex
         if b["jt"] != "none":
             hinge = b["jt"] == "hinge"
             u = U if hinge else 1.0
+            # stiffness / damping: linear coefficient followed by the two higher-order polynomial coefficients
             L.append("joint body=b%d name=j%d type=%d axis=%s pos=%s stiffness=%s springref=%s damping=%s armature=%s%s" % (
-                k, k, 3 if hinge else 2, csv(axis_of(b["ax"])), csv(b["janc"]), num(b.get("k", 0)),
-                num(b.get("qref", 0) * u), num(b.get("damp", 0)), num(b.get("arm", 0)),
+                k, k, 3 if hinge else 2, csv(axis_of(b["ax"])), csv(b["janc"]), csv([b.get("k", 0)] + list(b.get("kp", (0, 0)))),
+                num(b.get("qref", 0) * u), csv([b.get("damp", 0)] + list(b.get("dp", (0, 0)))), num(b.get("arm", 0)),
                 (" " + joint_extra(k, b)) if joint_extra else ""))
             if b.get("tc", 0) != 0 and hinge:
                 ten_hinge = True
@@ -187,14 +188,19 @@ def model_lines(ev, timestep=0.25, integrator="euler", disable=(), enable=(), ex
     if any(b.get("tc", 0) != 0 for b in ev["bodies"]):
         u = U if ten_hinge else 1.0
         L.append("tendon name=t stiffness=%s springlength=%s damping=%s armature=%s" % (
-            num(g["tk"]), csv([g["trange"][0] * u, g["trange"][1] * u]), num(g["tdamp"]), num(g["tarm"])))
+            csv([g["tk"]] + list(g.get("tkp", (0, 0)))), csv([g["trange"][0] * u, g["trange"][1] * u]),
+            csv([g["tdamp"]] + list(g.get("tdp", (0, 0)))), num(g["tarm"])))
         for k, b in enumerate(ev["bodies"], start=1):
             if b.get("tc", 0) != 0:
                 L.append("wrapjoint tendon=t joint=j%d coef=%s" % (k, num(b["tc"])))
             elif g.get("tz") and b["jt"] != "none":
                 L.append("wrapjoint tendon=t joint=j%d coef=0" % k)          # wrapped with coefficient 0: an exact zero in ten_J
     if sp != (0, 0):
-        L.append("tendon name=ts armature=%s" % num(g["sarm"]))
+        if ev.get("sppas"):         # spring / damper of the spatial tendon (only where the specification carries them)
+            L.append("tendon name=ts armature=%s stiffness=%s springlength=%s damping=%s" % (
+                num(g["sarm"]), csv(g["ssk"]), csv(g["ssr"]), csv(g["ssd"])))
+        else:
+            L.append("tendon name=ts armature=%s" % num(g["sarm"]))
         L.append("wrapsite tendon=ts site=s%d" % sp[0])
         L.append("wrapsite tendon=ts site=s%d" % sp[1])
     L += list(extra_lines)
@@ -459,9 +465,8 @@ def run_lattice(ctx, pid, spec, mc_cfgs, sim_cfg, nsim, script_for, sig_of, need
         resc = tlc.run(spec, os.path.join(TLA, cov_cfg), coverage=True, timeout=timeout)
         ctx.tlc_ok(resc, cov_cfg[:-4], need_actions=["DoPickA", "DoPickB", "DoPickC", "DoPickG", "DoKin", "DoFd", "DoVel",
                                                       "DoMass", "DoDyn", "DoPassive", "DoEnergy", "DoFinish"])
-    if neg_cfg:
+    for cfg, claim in ([neg_cfg] if neg_cfg and isinstance(neg_cfg[0], str) else (neg_cfg or [])):
         # negative control of the model checking itself: a deliberately false claim must be refuted by TLC
-        cfg, claim = neg_cfg
         resn = tlc.run(spec, os.path.join(TLA, cfg), timeout=timeout, java_opts=FAST_JIT)
         ctx.tlc_ok(resn, cfg[:-4], allow_violation=True)
         ctx.control("TLC refutes the false claim %s" % claim, resn.violation is not None and claim in resn.violation)
@@ -477,3 +482,8 @@ def run_lattice(ctx, pid, spec, mc_cfgs, sim_cfg, nsim, script_for, sig_of, need
                        "values published by the specification; non-trivial = at least one dof; distinct = distinct "
                        "model+state descriptions" % (", ".join(c[:-4] for c in mc_cfgs), total, len(sims), sim_cfg[:-4]))
     return allres
+
+
+def upoly(c, den=1):
+    """u-polynomial <<c0..c4>> over a denominator -> number (u = one quarter turn)"""
+    return sum(float(x) * U ** k for k, x in enumerate(c)) / float(den)
